@@ -27,7 +27,7 @@ ASSUMPTIONS = [
 ]
 
 
-def _setup(h, m, p, theta_dep=False):
+def _setup(h, m, p, theta_dep=False, pm=1, pk=1):
     import inference.gp.inversion as iv
     cv, mn = gc.patch_cov(h)
     h.patch(iv, solve=stubs.gauss_solve, solve_triangular=stubs.solve_triangular, cholesky=stubs.cholesky, zeros=ozeros)
@@ -38,7 +38,6 @@ def _setup(h, m, p, theta_dep=False):
     y = h.real("y", m)
     e = h.real("yerr", m, pos=True)
     pos = h.real("pos", (p, 1))
-    pk, pm = (1, 1)
     if theta_dep:
         fns = {(i, j): gc.smooth_ufunc(h, f"Lk{i}{j}", pk, seed=2 * i + j, positive=(i == j)) for i in range(p) for j in range(i + 1)}
         mfs = [gc.smooth_ufunc(h, f"pm{i}", pm, seed=7 + i) for i in range(p)]
@@ -64,15 +63,15 @@ def _setup(h, m, p, theta_dep=False):
         mvec = h.real("pmean", p)
 
         def Lat(t):
-            return Lk, [0 * Lk]
+            return Lk, [0 * Lk] * pk
 
         def mean_at(t):
-            return mvec, [0 * mvec]
+            return mvec, [0 * mvec] * pm
 
     class AbsKernel(cv.CovarianceFunction):
         bounds = None
         n_params = pk
-        hyperpar_labels = ["k0"]
+        hyperpar_labels = [f"k{i}" for i in range(pk)]
 
         def pass_spatial_data(self, xx):
             pass
@@ -94,7 +93,7 @@ def _setup(h, m, p, theta_dep=False):
     class AbsMean(mn.MeanFunction):
         bounds = None
         n_params = pm
-        hyperpar_labels = ["m0"]
+        hyperpar_labels = [f"m{i}" for i in range(pm)]
 
         def pass_spatial_data(self, xx):
             pass
@@ -215,7 +214,7 @@ def evidence_is_mvn_logpdf(h, m, p):
 
 @unit("C17", quick=[dict(m=1, p=2), dict(m=2, p=1)], thorough=[dict(m=2, p=2)], cost=8, timeout_ms=60000)
 def evidence_gradient_is_derivative(h, m, p):
-    iv, inv, A, y, e, th, K, mu0, pm = _setup(h, m, p, theta_dep=True)
+    iv, inv, A, y, e, th, K, mu0, pm = _setup(h, m, p, theta_dep=True, pm=2, pk=1)
     h.allow(np.linalg.LinAlgError)
     v, g = inv.marginal_likelihood_gradient(th)
     h.eq("value-and-gradient variant returns the same value", v, inv.marginal_likelihood(th))
